@@ -208,7 +208,8 @@ def gen_quads_trace(recipe, rng):
   pcd = Q[:, [2, 3]] if via_index else S[Q[:, [2, 3]]]
   ev = {'ev': 'PredictQuads', 'dab': dyv(est.pair_distance(pab)), 'dcd': dyv(est.pair_distance(pcd)),
         'pred': [int(v) for v in est.predict(arg)], 'dec': dyv(est.decision_function(arg)),
-        'dec_sw': dyv(est.decision_function(argsw)), 'pred_sw': [int(v) for v in est.predict(argsw)]}
+        'dec_sw': dyv(est.decision_function(argsw)), 'pred_sw': [int(v) for v in est.predict(argsw)],
+        'score': dy(est.score(arg))}
   return {'est': name, 'via_index': via_index, 'events': [model_with_thr(est), ev]}
 
 
